@@ -34,7 +34,7 @@ func (rw *readWriter) Read(p []byte) (n int, err error) {
 	rw.m.Lock()
 	defer rw.m.Unlock()
 
-	if !rw.closed.Load() && rw.buf.Len() == 0 {
+	for !rw.closed.Load() && rw.buf.Len() == 0 {
 		verifhook.At("rw.read.beforeWait")
 		rw.cv.Wait()
 		verifhook.At("rw.read.afterWake")
@@ -62,9 +62,11 @@ func (rw *readWriter) Write(p []byte) (n int, err error) {
 
 func (rw *readWriter) Close() error {
 	verifhook.At("rw.close.enter")
+	rw.m.Lock()
 	rw.closed.Store(true)
 	verifhook.At("rw.close.afterStore")
 	rw.cv.Broadcast()
+	rw.m.Unlock()
 	verifhook.At("rw.close.beforeWait")
 	rw.Wait()
 
